@@ -70,6 +70,8 @@ package state_machines
 //@ func FromDump
 //@   nosafety
 //@   modifies *
+// restoring fails only for a dump that is too short, does not decode, or names a state no machine owns
+//@   erroronly[C19.restore.onlyif] Unmarshal MachineByState | len(data) < 2
 //@   ensures unchanged("node.BaseNodeService.SkipCommKeysVerification", "node.BaseNodeService.userName", "node.BaseNodeService.state", "node.BaseNodeService.storage", "node.BaseNodeService.ctx", "[]storage.Message", "types.ReDKG.Messages")
 //@   ensures result1 == nil ==> fresh(result0)
 //@   ensures[C19.restore.machine] result1 == nil ==> result0 != nil && result0.machine != nil && result0.dump != nil
